@@ -14,7 +14,7 @@ RULE = ("GetMetric records: random registries (<= 5 non-uniform integer metric v
         "the same Grid; Integrate/Average/Derivative/Weighted records: real operator "
         "calls with non-uniform metrics incl. NaN masks and distractor variables at other positions; non-trivial = "
         "distinct (event, registry shape, array position, axes) classes"
-        ' Also: registries over three axes holding any subset of pairs and singles, metrics of different blocks on the same dimensions, all blocks off position, variables overwritten by ones stored in another dimension order, earlier lookups on the same Grid.')
+        ' Also: registries over three axes holding any subset of pairs and singles, metrics of different blocks on the same dimensions, all blocks off position, variables overwritten by ones stored in another dimension order (alone or in one call with a variable for a new position), earlier lookups on the same Grid.')
 
 
 def rand_grid(rng, naxes=None, nmax=3):
@@ -162,17 +162,21 @@ def gen_getmetric(rng, cid):
             reg = twin_registry(rng, grid, adims, req)
         case = {"id": cid, "ev": "GetMetric", "grid": grid, "reg": reg, "adims": adims, "ashape": ashape, "axes": req}
         multi = [k_ for k_, e in enumerate(reg) if len(e["dims"]) >= 2]
-        if multi and rng.random() < 0.15:
-            # one variable of the registry replaces (overwrite=True) an earlier one at the same position that was stored
-            # with its dimensions in another order
-            k_ = rng.choice(multi)
+        if reg and rng.random() < 0.2:
+            # one variable of the registry replaces (overwrite=True) an earlier one at the same position (that was stored
+            # with its dimensions in another order, if it has several)
+            k_ = rng.choice(multi) if multi and rng.random() < 0.6 else rng.randrange(len(reg))
             e = reg[k_]
             o_ = list(range(len(e["dims"])))
-            while o_ == sorted(o_):
+            while len(o_) >= 2 and o_ == sorted(o_):
                 rng.shuffle(o_)
             first = {"key": list(e["key"]), "var": e["var"] + "_first", "dims": [e["dims"][i] for i in o_],
                      "shape": [e["shape"][i] for i in o_], "flat": [rng.randint(5, 9) for _ in e["flat"]]}
             case["replaced"] = [k_, first]
+            # ... and the same call registers, after it, a variable of the same axes at a position not registered before
+            others = [j for j, e2 in enumerate(reg) if j != k_ and set(e2["key"]) == set(e["key"]) and set(e2["dims"]) != set(e["dims"])]
+            if others and rng.random() < 0.6:
+                case["held"] = rng.choice(others)
         if rng.random() < 0.35:
             # earlier lookups on the same Grid, for arrays at other positions of the same axes: what get_metric
             # answers depends on the registry and on the array, not on what was looked up before
@@ -274,14 +278,21 @@ def execute(case):
             # the registry of the record is what results from registering `first`, then overwriting it with the entry
             # now at that place of `reg` (same axes, same position, possibly stored in another dimension order)
             k_, first = rep
-            metrics = register(dict(case, reg=case["reg"][:k_] + [first] + case["reg"][k_ + 1:]), ds, nm)
+            held = case.get("held")
+            regc = case["reg"][:k_] + [first] + case["reg"][k_ + 1:]
+            metrics = register(dict(case, reg=[e for i, e in enumerate(regc) if i != held]), ds, nm)
             ds[nm(case["reg"][k_]["var"])] = model.make_array(case["reg"][k_], nm)
+            if held is not None:
+                ds[nm(case["reg"][held]["var"])] = model.make_array(case["reg"][held], nm)
         else:
             metrics = register(case, ds, nm)
         grid, ds = model.make_grid(case["grid"], ds=ds, metrics=metrics)
         if rep:
             e_ = case["reg"][rep[0]]
-            grid.set_metrics(tuple(nm(a) for a in e_["key"]), nm(e_["var"]), overwrite=True)
+            if case.get("held") is not None:
+                grid.set_metrics(tuple(nm(a) for a in e_["key"]), [nm(e_["var"]), nm(case["reg"][case["held"]]["var"])], overwrite=True)
+            else:
+                grid.set_metrics(tuple(nm(a) for a in e_["key"]), nm(e_["var"]), overwrite=True)
         ev = case["ev"]
         if ev == "GetMetric":
             for b in case.get("before", []):
